@@ -145,6 +145,9 @@ def bookkeeping1(rep, g, N, effs, all_effs):
     ab = checked('Add', ep.val)
     rep.check(ab is not None and is_sget(ab[0], 'instance', 'Epoch') and const_int(core(ab[1])) == 1, 'C03.R2', '%s:epoch+1' % g.entry,
               'new epoch = stored Epoch + 1 (checked)', esite(g, ep), fmt(ep.val))
+    st = [x for x in stale_reads(g, 'Epoch') if x[0] is ep]
+    rep.check(not st, 'C03.R2', '%s:epoch-read-fresh' % g.entry, 'the new epoch is computed from an Epoch read that no other Epoch write separates from this write',
+              esite(g, ep))
     e1 = core(ep.val)
     a = by['SignersHashByEpoch']
     b = by['EpochBySignersHash']
